@@ -132,29 +132,26 @@ theorem collectLoop_infosP {P : PTree → Prop}
       · split at hr
         · cases hr
         · rename_i tree errors hparse
-          split at hr
-          · cases hr
-          · rename_i fileDir hdir
-            refine ih _ ?_ hr
-            refine InfosP.set ?_ _ _ (hparseP hparse)
-            -- the fold over the includes only assigns ids
-            generalize (listIncludes tree) = incs
-            have : ∀ (st : Collect × List ((Nat × Nat) × Nat)), InfosP P st.1.infos →
-                InfosP P (incs.foldl (fun (st : Collect × List ((Nat × Nat) × Nat)) inc' =>
-                  match st.1.resolveIncludeFile inc'.2 (fileDir :: (match inc with | some d => [d] | none => [])) with
-                  | (some id, c') => ({ c' with queue := c'.queue ++ [id] }, st.2 ++ [(inc'.1, id)])
-                  | (none, c') => (c', st.2)) st).1.infos := by
-              induction incs with
-              | nil => intro st hst; exact hst
-              | cons x t iht =>
-                intro st hst
-                simp only [List.foldl_cons]
-                apply iht
-                have := resolveIncludeFile_infosP st.1 x.2 (fileDir :: (match inc with | some d => [d] | none => [])) hst
-                split
-                · rename_i heq; rw [heq] at this; exact this
-                · rename_i heq; rw [heq] at this; exact this
-            exact this _ h
+          refine ih _ ?_ hr
+          refine InfosP.set ?_ _ _ (hparseP hparse)
+          -- the fold over the includes only assigns ids
+          generalize (listIncludes tree) = incs
+          have : ∀ (st : Collect × List ((Nat × Nat) × Nat)), InfosP P st.1.infos →
+              InfosP P (incs.foldl (fun (st : Collect × List ((Nat × Nat) × Nat)) inc' =>
+                match st.1.resolveIncludeFile inc'.2 ((Path.parent (c.paths.getD fileId "")).toList ++ (match inc with | some d => [d] | none => [])) with
+                | (some id, c') => ({ c' with queue := c'.queue ++ [id] }, st.2 ++ [(inc'.1, id)])
+                | (none, c') => (c', st.2)) st).1.infos := by
+            induction incs with
+            | nil => intro st hst; exact hst
+            | cons x t iht =>
+              intro st hst
+              simp only [List.foldl_cons]
+              apply iht
+              have := resolveIncludeFile_infosP st.1 x.2 ((Path.parent (c.paths.getD fileId "")).toList ++ (match inc with | some d => [d] | none => [])) hst
+              split
+              · rename_i heq; rw [heq] at this; exact this
+              · rename_i heq; rw [heq] at this; exact this
+          exact this _ h
 
 /-- a property of every parser output (and of the empty tree) holds for every tree of a workspace
 built by `buildWorkspace` -/
